@@ -1,6 +1,16 @@
 """C03 -- ADWIN keeps exact statistics of its adaptive window and cuts it by its rule."""
 from .common import A_COMMON
-TARGETS = []
+Q = "menelaus.change_detection.adwin:ADWIN"
+QA = "menelaus.concept_drift.adwin_accuracy:ADWINAccuracy"
+TARGETS = [("fn", Q + "." + f) for f in ("mean", "variance", "_check_epsilon", "_add_sample", "_remove_last", "update")] + \
+          [("fn", QA + ".__init__"), ("fn", QA + ".update"), ("lemma", "remove_bucket_identity"), ("lemma", "merge_buckets_identity")]
 LEVEL = "exploration"
 LEVEL_TEXT = ('Bounded: real ADWIN / ADWINAccuracy against a reference model whose buckets keep their raw inputs (window size, mean, population variance of exactly the W most recent inputs, cut rule over all admissible bucket-boundary splits, retraining_recs, constructor parameters) on multi-shift streams over a parameter grid incl. max_buckets=1. The deductive stage of DESIGN.md 9/C03 is not built in this round; claimed as exploration.')
-ASSUMPTIONS = A_COMMON + []
+ASSUMPTIONS = A_COMMON + [
+    "ASSUMED (unverified) contracts: ADWIN._shrink_window, ADWIN._compress_buckets, _BucketRow.remove_buckets, "
+    "_BucketRowList.remove_tail; _remove_last's precondition bucket_ok (the oldest bucket's variance entry is Q_b - T_b^2/n_b) "
+    "is the row-structure invariant of stage 2, not proved",
+    "A-LIST: nodes of the bucket-row list reached through head / tail / next / prev are pairwise distinct, lazily "
+    "materialised objects",
+    "sqrt / log axioms: sqrt(x)^2 = x for x >= 0, monotone; log 1 = 0, strictly monotone, 1 - 1/x <= log x <= x - 1",
+]
